@@ -11,7 +11,8 @@ from . import xmlw
 FILE_ROUTES = ['xml', 'gz', 'xz', 'package', 'collection',
                'tar-file', 'tgz-file', 'txz-file',
                'tar-package', 'tgz-package', 'txz-package',
-               'tar-collection', 'tgz-collection', 'txz-collection']
+               'tar-collection', 'tgz-collection', 'txz-collection',
+               'tar-gzfile', 'tgz-xzfile']
 ALL_ROUTES = FILE_ROUTES + ['memory']
 
 
@@ -61,7 +62,11 @@ def build(route: str, d: Path, parts, suffix='.xml'):
         return c
     comp = {'tar': 'w', 'tgz': 'w:gz', 'txz': 'w:xz'}[route.split('-')[0]]
     inner = d / 'inner'
-    if kind == 'file':
+    if kind in ('gzfile', 'xzfile'):
+        inner.mkdir()
+        src = inner / f'{whole_name}{suffix}.{kind[:2]}'
+        src.write_bytes(gzip.compress(whole) if kind == 'gzfile' else lzma.compress(whole))
+    elif kind == 'file':
         inner.mkdir()
         src = inner / f'{whole_name}{suffix}'
         src.write_bytes(whole)
